@@ -64,6 +64,23 @@ def run(R):
     R.rule("C18.callers", "functions whose result carries hash order are called only from the listed non-output callers")
     R.rule("C18.indirect", "no dyn / fn-pointer call in the analysed crate (assumption of the call graph)")
     R.rule("C18.fieldtypes", "container types of the fields whose traversal is output order (reported)")
+
+    R.rule("C18.process-state", "no process-wide mutable state (a static holding a Mutex / RwLock / RefCell / Cell / atomic, or a thread-local) "
+                                "in the library: a result must not depend on what the process executed before (caches across queries, counters)")
+    mut_statics = [st for st in P.statics if st.get("_target") == "lib" and
+                   re.search(r"(sync::(poison::)?(mutex::)?Mutex|RwLock|RefCell|cell::Cell<|cell::OnceCell|sync::atomic::Atomic|OnceLock|LazyLock<.*(Mutex|RwLock|Atomic))", st["ty"])]
+    for st in mut_statics:
+        R.violation("C18.process-state", "static|" + st["key"].split("::")[-1] if "LAZY" not in st["key"] else "static|" + st["key"].split("::")[-4],
+                    "process-wide mutable state `%s`: %s - what one query (or an earlier query of the same process) stored can change what a "
+                    "later query returns, so the output is no longer a function of query + input" % (st["key"], st["ty"][:120]),
+                    ["%s:%d" % (st["span"]["file"], st["span"]["line"])])
+    tls = [(g, s_) for g in P.fns.values() if g.target == "lib" for i_, s_ in g.stmts() if s_["rv"]["k"] == "tls"]
+    for g, s_ in tls:
+        R.violation("C18.process-state", "tls|" + g.spath, "%s uses a thread-local: state that survives from one query to the next" % g.path,
+                    ["%s:%d" % (g.file, s_["line"])])
+    if not mut_statics and not tls:
+        R.ok("C18.process-state", "lib", "%d statics in the library, none with interior mutability; no thread-locals"
+             % len([st for st in P.statics if st.get("_target") == "lib"]), "src/lib.rs")
     used = set()
     seen_count = {}
     cg = P.callgraph()
